@@ -217,8 +217,9 @@ def resolver(
                 register_serialized(
                     alias=alias2,
                     conversion=conversion,
-                    schema=schema,
                     error_handler=error_handler,
+                    order=order,
+                    schema=schema,
                     owner=owner,
                 )(func)
             except Exception:
